@@ -287,6 +287,7 @@ class Repo:
             if name.endswith(".__init__"):
                 name = name[:-len(".__init__")]
             self.modules[name] = Module(name, p, rel, p.read_text())
+            self.modules[name]._repo = self
 
     def resource(self, name):
         """Lines of src/resources/<name> or None if absent."""
